@@ -251,6 +251,11 @@ def md_template() -> str:
             cc.md_set_user(w, real, sec, path=MD_PATH.get(m))
             cc.md_first_session(w, f'h{n}', real, sec, 'marker_' + m, sieve=False)
         cc.md_set_user(w, 'off', None)
+        # two more accounts, made AFTER user1, whose names differ from 'user1' by outer white
+        # space only (own secrets, which are never presented): they are nobody the model knows;
+        # a reader of the files that trims names would let their lines replace user1's
+        cc.md_set_user(w, 'user1 ', 'tsp-7f3a-secret')
+        cc.md_set_user(w, ' user1', 'lsp-91c2-secret')
     finally:
         w.close()
 
@@ -356,7 +361,7 @@ def presented_names(base_dir: str) -> list:
     return out
 
 
-def secrets_for(near: str, rng) -> list:
+def secrets_for(near: str, rng, name: bytes | None = None) -> list:
     table = md_table()
     cands = []
     sec = table.get(near, (None, MD_GHOSTS.get(near)))[1]
@@ -376,6 +381,10 @@ def secrets_for(near: str, rng) -> list:
     if stored:
         cands.append(stored)                    # the stored representation itself
         cands.append(stored.lstrip('!'))
+    if name == b'user1':
+        # the secrets of the accounts whose names are 'user1' with outer white space, presented
+        # under the exact name 'user1' only (under their own names they are right)
+        cands[1:1] = ['tsp-7f3a-secret', 'lsp-91c2-secret']
     cands += ['', rng.choice(['x', '*', '!', 'None', 'x' * 5000])]
     return [c.encode() for c in cands]
 
@@ -472,8 +481,8 @@ def maildir_histories(run: Run, rng, tier: str, traces: list) -> dict:
     try:
         names = presented_names(h.world.base_dir)
         for name, near in names:
-            secs = secrets_for(near, rng)
-            if quick and len(secs) > 4:
+            secs = secrets_for(near, rng, name)
+            if quick and len(secs) > 4 and name != b'user1':
                 secs = secs[:1] + rng.sample(secs[1:], 3)
             for i, sec in enumerate(secs):
                 # every secret in one form (all forms in the thorough tier); the first
